@@ -27,6 +27,9 @@ func init() {
 			ruleB1(r, le)
 			ruleLockOrder(r, le)
 			ruleH1(r, le)
+			ruleAlwaysCancels(r, "X1")
+			ruleCtxParamUsed(r, "X2")
+			ruleDrainBounds(r, "W3")
 		},
 	})
 }
